@@ -43,7 +43,8 @@ REQUIRED_THEOREMS = ['OpusProps.C10.validate_spec', 'OpusProps.C10.create_reject
                      'OpusProps.C10.ambisonics_counts', 'OpusProps.C10.projection_layout_valid',
                      'OpusProps.C10.demix_inverts_mix', 'OpusProps.C10.ms_packet_structure',
                      'OpusProps.C10.matrix_short_saturates', 'OpusProps.C10.ms_encode_packet_structure',
-                     'OpusProps.C10.import_export_demix', 'OpusProps.C10.isqrt32_correct']
+                     'OpusProps.C10.import_export_demix', 'OpusProps.C10.isqrt32_correct',
+                     'OpusProps.C10.projdec_create_rejects']
 UNPROVED = ['that the real per-stream encoder meets EncContract (valid packet of the common frame size, <= curr_max bytes, '
             'zero padding): ms_encode_packet_structure assumes it (C02/C05/C07 territory); monitored by the S4 search on real encoders',
             'equality of the streams inside a multistream decoder with stand-alone decoders (per-stream codecs are opaque)']
@@ -96,7 +97,8 @@ _CLAUSE = {
     'ambi': 'ambisonics channel counts (theorem ambisonics_counts)',
     'msenc': 'the multistream encoder emits self-delimited packets ++ one standard packet of equal duration '
              '(theorem ms_encode_packet_structure)',
-    'projdec': 'projection decoder creation: argument checks and the imported demixing matrix (theorem import_export_demix)',
+    'projdec': 'projection decoder creation: argument checks and the imported demixing matrix (theorems projdec_create_rejects, '
+               'import_export_demix)',
     'mixinf': 'float input path of the mapping-matrix multiply = exact linear combination (exact binary32 domain)',
     'mixoutf': 'float output path of the mapping-matrix multiply = exact multiply-accumulate (exact binary32 domain)',
 }
@@ -264,8 +266,8 @@ def search(ctx):
     n = 300 if ctx.quick else 6000
     seed = ctx.seed + 500
     eat(_run([h, 'straddle', str(seed), str(n)]), 'layout-straddle', 'harness: c10_layout straddle %d %d' % (seed, n))
-    # (e) projection decoder creation with a zero cell count: the one call on which the code declares a zero-length array
-    #     before validating its arguments (run under ASan/UBSan; a sanitizer report is a witness)
+    # (e) corpus case (fixed defect 31272f65): projection decoder creation with a zero cell count, on which the code used to
+    #     declare a zero-length array before validating its arguments (run under ASan/UBSan; a sanitizer report is a witness)
     hsan = _harness(ctx, 'c10_layout', 'san')
     p = _run([hsan, 'projvla'])
     cases += 2
